@@ -69,14 +69,14 @@ inductive Piece where
 deriving Repr
 
 /-- first rule of the state that matches at the head of `s` -/
-def firstMatch (t : CharTables) (rules : List LexRule) (prev : Option Char) (s : List Char) :
-    Option (LexRule × List Char) :=
+def firstMatch (t : CharTables) (bound : Nat) (rules : List LexRule) (prev : Option Char) (s : List Char) :
+    Option (LexRule × Nat × List Char) :=
   match rules with
   | [] => none
   | r :: rs =>
-    match Re.matchPrefix t r.re prev s with
-    | some rest => some (r, rest)
-    | none => firstMatch t rs prev s
+    match Re.matchPrefix t bound r.re prev s with
+    | some (n, rest) => some (r, n, rest)
+    | none => firstMatch t bound rs prev s
 
 structure LexOut where
   toks : List Token
@@ -84,7 +84,7 @@ structure LexOut where
 deriving Inhabited
 
 /-- the tokenize loop; `fuel` ≥ remaining length + 1 -/
-def lexLoop (spec : LexSpec) : Nat → (state : Nat) → (stack : List Nat) → Option Char → List Char →
+def lexLoop (spec : LexSpec) (bound : Nat) : Nat → (state : Nat) → (stack : List Nat) → Option Char → List Char →
     Except Err LexOut
   | 0, _, _, _, _ => throw (.other "fuel")
   | fuel + 1, st, stack, prev, s =>
@@ -93,38 +93,37 @@ def lexLoop (spec : LexSpec) : Nat → (state : Nat) → (stack : List Nat) → 
         if spec.eofRequiresInitial && st != 0 then throw .lexError else pure ⟨[], []⟩
     | c :: cs =>
       let state := spec.states[st]!
-      match firstMatch spec.tables state.rules prev s with
-      | some (r, rest) =>
-          let n := s.length - rest.length
+      match firstMatch spec.tables bound state.rules prev s with
+      | some (r, n, rest) =>
           if n == 0 then throw (.other "empty-match") else
           let lexeme := s.take n
           let prev' := lexeme.getLast?
           match r.action with
           | .emit conv => do
-              let out ← lexLoop spec fuel st stack prev' rest
+              let out ← lexLoop spec bound fuel st stack prev' rest
               pure ⟨⟨r.name, convert spec.tables conv lexeme⟩ :: out.toks, .token r.name lexeme :: out.pieces⟩
           | .ignore => do
-              let out ← lexLoop spec fuel st stack prev' rest
+              let out ← lexLoop spec bound fuel st stack prev' rest
               pure ⟨out.toks, .trivia lexeme :: out.pieces⟩
           | .push st' => do
-              let out ← lexLoop spec fuel st' (st :: stack) prev' rest
+              let out ← lexLoop spec bound fuel st' (st :: stack) prev' rest
               pure ⟨out.toks, .trivia lexeme :: out.pieces⟩
           | .pop =>
               match stack with
               | [] => throw (.other "pop-empty")
               | st' :: stack' => do
-                  let out ← lexLoop spec fuel st' stack' prev' rest
+                  let out ← lexLoop spec bound fuel st' stack' prev' rest
                   pure ⟨out.toks, .trivia lexeme :: out.pieces⟩
           | .unknown w => throw (.other ("unknown-action:" ++ w))
       | none =>
           if state.errorRaises then throw .lexError
           else do
-            let out ← lexLoop spec fuel st stack (some c) cs
+            let out ← lexLoop spec bound fuel st stack (some c) cs
             pure ⟨out.toks, .skipped c :: out.pieces⟩
 
 def lexFull (spec : LexSpec) (text : String) : Except Err LexOut :=
   let s := text.toList
-  lexLoop spec (s.length + 1) 0 [] none s
+  lexLoop spec s.length (s.length + 1) 0 [] none s
 
 def lex (spec : LexSpec) (text : String) : Except Err (List Token) :=
   (lexFull spec text).map (·.toks)
